@@ -882,6 +882,9 @@ func (p *parser) parseMatrix(pos *Pos, n *yaml.Node) *Matrix {
 			}
 
 			if ok := p.checkSequence("matrix values", kv.val, false); !ok {
+				// Register the row though its values are invalid. Otherwise references to it are reported as
+				// undefined in addition to the error on the values
+				ret.Rows[kv.id] = &MatrixRow{Name: kv.key}
 				continue
 			}
 
